@@ -3,22 +3,30 @@
    checksum tail hold three 255-byte names; every sequence of insertions and removals of the names 1..N with the hashes Hash[n]
    (two of them collide).  The model is the set of names present.                                                          *)
 EXTENDS HTree
-CONSTANTS N, BS, RootLim, NodeLim, MaxOps
-VARIABLES ly, present, nops
-vars == <<ly, present, nops>>
+CONSTANTS N, BS, RootLim, NodeLim, MaxOps, WithRebuild
+VARIABLES ly, present, nops, reb          \* reb: the last step was a rebuild (e2fsck -D)
+vars == <<ly, present, nops, reb>>
 Hash == <<40, 10, 70, 20, 20, 90, 55, 30, 80, 60, 5, 95>>
 Len8 == {4, 9}                                   \* these names are short (8 bytes), the others 255 bytes
 cNT == [n \in 1..12 |-> <<IF n \in Len8 THEN 8 ELSE 255, Hash[n]>>]
-G == [bs |-> BS, tail |-> 12, cs |-> 12, nlim |-> NodeLim, maxlv |-> 2]
+G == [bs |-> BS, tail |-> 12, cs |-> 12, rlim |-> RootLim, nlim |-> NodeLim, maxlv |-> 2]
 Init == /\ ly = [b |-> << <<Slot(50, 1, 12, 2, -1), Slot(2, 2, BS - 12, 2, -2)>>, <<Empty(BS - 12)>> >>, inl |-> FALSE,
                  dx |-> [lv |-> 0, nodes |-> (0 :> [limit |-> RootLim, e |-> << <<0, 0, 1>> >>])]]
-        /\ present = {} /\ nops = 0
+        /\ present = {} /\ nops = 0 /\ reb = FALSE
 Ins(n) == /\ n \notin present
           /\ LET r == DxLink(ly, Slot(100 + n, cNT[n][1], 0, 1, n), cNT, G) IN
              r.done /\ ly' = [ly EXCEPT !.b = r.b, !.dx = r.dx]
           /\ present' = present \cup {n}
 Del(n) == n \in present /\ ly' = [ly EXCEPT !.b = UnlinkDir(@, 1, n)] /\ present' = present \ {n}
-Next == nops < MaxOps /\ nops' = nops + 1 /\ \E n \in 1..N : Ins(n) \/ Del(n)
+\* e2fsck -D: the names in hash order (equal hashes: any fixed order, here by name id) written anew
+Less(a, c) == cNT[a][2] < cNT[c][2] \/ (cNT[a][2] = cNT[c][2] /\ a < c)
+Ordered == [r \in 1..Cardinality(present) |-> CHOOSE n \in present : Cardinality({x \in present : Less(x, n)}) = r - 1]
+Reb == /\ WithRebuild /\ RebuildIndexes(ly, G, TRUE)
+       /\ ly' = RebuildDx([r \in 1..Cardinality(present) |-> Slot(100 + Ordered[r], cNT[Ordered[r]][1], 0, 1, Ordered[r])], 50, 2, 2, cNT, G)
+       /\ UNCHANGED present
+Next == /\ nops < MaxOps /\ nops' = nops + 1
+        /\ \/ (reb' = FALSE /\ \E n \in 1..N : Ins(n) \/ Del(n))
+           \/ (reb' = TRUE /\ Reb)
 Spec == Init /\ [][Next]_vars
 InvDx == DxInvariant(ly, cNT, G)
 InvLookup == \A n \in present : LookupFinds(ly, cNT, n)
@@ -27,10 +35,13 @@ InvChain == \A j \in LeafIdx(ly) : ChainCovers(ly.b[j], BS - 12)
 \* the index blocks keep their directory-block disguise
 InvDisguise == /\ ly.b[1] = <<Slot(50, 1, 12, 2, -1), Slot(2, 2, BS - 12, 2, -2)>>
                /\ \A k \in (DOMAIN ly.dx.nodes) \ {0} : ly.b[k + 1] = <<Empty(BS)>>
+\* the rebuilt directory has the form the trace specification demands of `e2fsck -D`, with the level calculate_tree decides on
+InvRebuiltForm == reb => IsRebuiltDx(ly, 50, 2, 2, cNT, G, 0) /\ ly.dx.lv = TreeLevels(Cardinality(LeafIdx(ly)), G)
 \* an insertion is refused only when the tree cannot grow any more
 InvRefusal == \A n \in (1..N) \ present :
                  ~DxLink(ly, Slot(100 + n, cNT[n][1], 0, 1, n), cNT, G).done => ly.dx.lv + 1 >= 2
 \* witnesses (expected to be violated: used once to show that the configuration reaches these situations)
 WitnessNoGrowth == ly.dx.lv = 0
+WitnessNoTwoLevelRebuild == ~(reb /\ ly.dx.lv = 1)
 WitnessNoNodeSplit == Cardinality(DOMAIN ly.dx.nodes) <= 2
 =============================================================================
